@@ -260,6 +260,7 @@ def pool_codec(ctx):
     ctx.check(ok, R, "third byte only with long_string_refs", "", "the third reference byte is not conditioned on long_string_refs on both sides", fr.loc(), fn=fr.name)
     # short mode refuses wide references
     short_ref_bound(ctx, R)
+    ref_zero_extended(ctx, R)
 
     bit = prog.const(SP + "LONG_STRING_REFS_BIT")["val"]
     ctx.check(bit == 0x80000000, R, "LONG_STRING_REFS_BIT", hex(bit), "LONG_STRING_REFS_BIT is %#x, the format uses bit 31" % bit)
@@ -375,6 +376,42 @@ def short_ref_bound(ctx, rule):
     ctx.check(len(ws) == 1 and hi == 65535, rule, "short references are written exactly when they fit 16 bits", "upper bound %s" % hi,
               "StringRef::write in two-byte mode writes references up to %s: every reference up to 0xffff must be written (the pool hands out 65,535 of them) and none above "
               "(it would be truncated)" % hi, fw.loc(), fn=fw.name, key=rule + "|short-ref-bound")
+
+
+def ref_zero_extended(ctx, rule):
+    """string references are non-negative numbers up to 2^24: neither the reader nor the pool may pass one through a narrower (sign-carrying) integer type"""
+    prog = ctx.prog
+    NARROW = re.compile(r" as (i8|i16|u8|u16)\)")
+    for name in (SP + "StringRef::read", SP + "StringPool::incref"):
+        f = prog.fn(name)
+        S = Sym(prog, f)
+        vals = []
+        for bl in f.blocks:
+            if bl["cleanup"]:
+                continue
+            for st in bl["stmts"]:
+                r = st["rhs"]
+                if r["rv"] == "agg" and (r.get("adt") or "").endswith("StringRef"):
+                    vals.append(S.val(r["ops"][0]))
+                if name.endswith("::read") and r["rv"] == "cast" and not st["sp"].get("exp"):
+                    vals.append("(%s as %s)" % (S.val(r["ops"][0]), r.get("to")))
+        bad = [v for v in vals if NARROW.search(v)]
+        ctx.check(bool(vals) and not bad, rule, "%s: references never pass through a 16-bit or narrower type" % short(name), "%d values" % len(vals),
+                  "%s computes a string reference as %s: references above 0x7fff (pools with more than 32,767 strings) come out negative or truncated" % (short(name), bad[:2]),
+                  f.loc(), fn=f.name, key="%s|ref-wide|%s" % (rule, short(name)))
+
+
+def val_conv(ctx, rule="VAL-CONV"):
+    prog = ctx.prog
+    ctx.rule(rule, "Value::from(i16 / u16 / i32) is Int of exactly the argument, widened directly to i32 (no intermediate narrower or sign-changing type)")
+    n = 0
+    for ty in ("i16", "u16", "i32"):
+        f = prog.fn("msi::<internal::value::Value as std::convert::From<%s>>::from" % ty)
+        v = Sym(prog, f).local(0)
+        n += 1
+        ctx.check(v in ("internal::value::Value::Int{(p1 as i32)}", "internal::value::Value::Int{p1}"), rule, "Value::from(%s)" % ty, v,
+                  "Value::from(%s) builds %s: the integer handed in is not the integer stored (e.g. 40000u16 becomes negative)" % (ty, v), f.loc(), fn=f.name, key="%s|%s" % (rule, ty))
+    ctx.floor(rule, "integer conversions into Value", n, 3)
 
 
 def codec_e(ctx, rule="CODEC-E"):
